@@ -110,6 +110,76 @@ func (r *Rng) randIPish() string {
 	return sb.String()
 }
 
+// longIPv6 builds a long IPv6-looking literal: mostly well formed (right number of groups, at most one
+// ellipsis, a dotted-quad tail in the right place), then with probability 1/2 one edit.
+func (r *Rng) longIPv6() string {
+	hexd := "0123456789abcdefABCDEF"
+	group := func() string {
+		k := 1 + r.Intn(4)
+		b := make([]byte, k)
+		for j := range b {
+			b[j] = hexd[r.Intn(len(hexd))]
+		}
+		return string(b)
+	}
+	units := 8
+	v4 := r.Chance(30)
+	if v4 {
+		units = 6
+	}
+	ell := r.Chance(60)
+	n := units
+	if ell {
+		n = r.Intn(units) // 0..units-1 groups written, the ellipsis stands for the rest
+	}
+	if r.Chance(10) {
+		n += 1 + r.Intn(2) // too many groups
+	}
+	gs := make([]string, n)
+	for i := range gs {
+		gs[i] = group()
+	}
+	var s string
+	if ell {
+		p := r.Intn(n + 1)
+		if v4 {
+			p = r.Intn(n + 1)
+		}
+		s = strings.Join(gs[:p], ":") + "::" + strings.Join(gs[p:], ":")
+		if v4 {
+			if p < n {
+				s += ":"
+			}
+			s += Pick(r, ipv4Pool)
+		}
+	} else {
+		s = strings.Join(gs, ":")
+		if v4 {
+			if n > 0 {
+				s += ":"
+			}
+			s += Pick(r, ipv4Pool)
+		}
+	}
+	if r.Chance(50) && len(s) > 0 {
+		p := r.Intn(len(s) + 1)
+		c := string([]byte{Pick(r, []byte{':', '.', '0', 'f', 'g', '%', '1', 'F', ' ', '[', ']'})})
+		switch r.Intn(3) {
+		case 0:
+			s = s[:p] + c + s[p:]
+		case 1:
+			if p < len(s) {
+				s = s[:p] + s[p+1:]
+			}
+		default:
+			if p < len(s) {
+				s = s[:p] + c + s[p+1:]
+			}
+		}
+	}
+	return s
+}
+
 func (r *Rng) genServerName() string {
 	h := r.genHost()
 	switch r.Intn(6) {
